@@ -5,6 +5,7 @@ import (
 	"errors"
 	"strconv"
 	"strings"
+	"sync"
 	"time"
 
 	"github.com/lestrrat-go/jwx/v2/jwk"
@@ -21,10 +22,13 @@ var errInjected = errors.New("verif: injected store fault")
 type spyFactory struct {
 	d     *driver
 	real  oidc.SessionStoreFactory
+	mu    sync.Mutex
 	spies map[oidc.SessionStore]*spyStore
 }
 
 func (f *spyFactory) Get(cfg *oidcv1.OIDCConfig) oidc.SessionStore {
+	f.mu.Lock()
+	defer f.mu.Unlock()
 	rs := f.real.Get(cfg)
 	if rs == nil {
 		return nil
@@ -44,9 +48,9 @@ type spyStore struct {
 	id   string
 }
 
-func (s *spyStore) do(op, sid string, arg map[string]any, run func() (map[string]any, error)) error {
+func (s *spyStore) do(ctx context.Context, op, sid string, arg map[string]any, run func() (map[string]any, error)) error {
 	d := s.d
-	g := d.arrive("store", map[string]any{"op": op})
+	g := d.arrive("store", map[string]any{"op": op, "check": ctx.Value(checkKey{})})
 	ev := map[string]any{"ev": "store", "n": g.check.n, "c": g.check.id, "f": g.check.f, "store": s.id, "op": op,
 		"sid": d.symSid(sid), "fault": "none", "arg": arg}
 	fault := g.dir.Fault
@@ -108,15 +112,22 @@ func (s *spyStore) authMap(a *oidc.AuthorizationState) map[string]any {
 }
 
 func (s *spyStore) SetTokenResponse(ctx context.Context, sid string, t *oidc.TokenResponse) error {
-	return s.do("SetTokenResponse", sid, s.tokMap(t), func() (map[string]any, error) {
+	return s.do(ctx, "SetTokenResponse", sid, s.tokMap(t), func() (map[string]any, error) {
 		return nil, s.real.SetTokenResponse(ctx, sid, t)
 	})
 }
 
 func (s *spyStore) GetTokenResponse(ctx context.Context, sid string) (out *oidc.TokenResponse, err error) {
-	err = s.do("GetTokenResponse", sid, map[string]any{"ex": false}, func() (map[string]any, error) {
+	err = s.do(ctx, "GetTokenResponse", sid, map[string]any{"ex": false}, func() (map[string]any, error) {
 		var e error
 		out, e = s.real.GetTokenResponse(ctx, sid)
+		if out != nil && out.RefreshToken != "" && s.d.parallel {
+			if c, ok := ctx.Value(checkKey{}).(*checkRun); ok {
+				s.d.big.Lock()
+				s.d.rtReader[out.RefreshToken] = c
+				s.d.big.Unlock()
+			}
+		}
 		return s.tokMap(out), e
 	})
 	if err != nil {
@@ -126,13 +137,13 @@ func (s *spyStore) GetTokenResponse(ctx context.Context, sid string) (out *oidc.
 }
 
 func (s *spyStore) SetAuthorizationState(ctx context.Context, sid string, a *oidc.AuthorizationState) error {
-	return s.do("SetAuthorizationState", sid, s.authMap(a), func() (map[string]any, error) {
+	return s.do(ctx, "SetAuthorizationState", sid, s.authMap(a), func() (map[string]any, error) {
 		return nil, s.real.SetAuthorizationState(ctx, sid, a)
 	})
 }
 
 func (s *spyStore) GetAuthorizationState(ctx context.Context, sid string) (out *oidc.AuthorizationState, err error) {
-	err = s.do("GetAuthorizationState", sid, map[string]any{"ex": false}, func() (map[string]any, error) {
+	err = s.do(ctx, "GetAuthorizationState", sid, map[string]any{"ex": false}, func() (map[string]any, error) {
 		var e error
 		out, e = s.real.GetAuthorizationState(ctx, sid)
 		return s.authMap(out), e
@@ -144,13 +155,13 @@ func (s *spyStore) GetAuthorizationState(ctx context.Context, sid string) (out *
 }
 
 func (s *spyStore) ClearAuthorizationState(ctx context.Context, sid string) error {
-	return s.do("ClearAuthorizationState", sid, map[string]any{"ex": false}, func() (map[string]any, error) {
+	return s.do(ctx, "ClearAuthorizationState", sid, map[string]any{"ex": false}, func() (map[string]any, error) {
 		return nil, s.real.ClearAuthorizationState(ctx, sid)
 	})
 }
 
 func (s *spyStore) RemoveSession(ctx context.Context, sid string) error {
-	return s.do("RemoveSession", sid, map[string]any{"ex": false}, func() (map[string]any, error) {
+	return s.do(ctx, "RemoveSession", sid, map[string]any{"ex": false}, func() (map[string]any, error) {
 		return nil, s.real.RemoveSession(ctx, sid)
 	})
 }
@@ -165,7 +176,11 @@ type spyJWKS struct {
 
 func (j *spyJWKS) Get(ctx context.Context, cfg *oidcv1.OIDCConfig) (jwk.Set, error) {
 	d := j.d
-	g := d.arrive("jwks", map[string]any{})
+	g := d.arrive("jwks", map[string]any{"check": ctx.Value(checkKey{})})
+	if d.parallel && g.check == d.orphan {
+		// the refresh path validates with context.Background(): the lookup cannot be attributed; it is not logged
+		return j.real.Get(ctx, cfg)
+	}
 	res := "ok"
 	var (
 		set jwk.Set
